@@ -21,6 +21,7 @@ func extraAgents(s *Sim) []Agent {
 	add("commit", &CommitAgent{newBase(s, "commit")})
 	add("oraclechaos", &OracleChaosAgent{newBase(s, "oraclechaos")})
 	add("govchaos", &GovChaosAgent{baseAgent: newBase(s, "govchaos")})
+	add("incentive", &IncentiveAgent{newBase(s, "incentive")})
 	return out
 }
 
@@ -37,6 +38,7 @@ func extraMonitors(s *Sim) []Monitor {
 		newMonSwaps(s),
 		newMonC05(s),
 		newMonC07(s),
+		newMonC13(s),
 	}
 }
 
